@@ -260,3 +260,134 @@ pub(crate) fn report_choice(choice: &Choice) {
     }
     event("choice", &args);
 }
+
+/// One blob of a blob file as the scanner sees it.
+pub struct BlobDump {
+    pub key: Vec<u8>,
+    pub seqno: SeqNo,
+    pub offset: u64,
+    pub uncompressed_len: u32,
+    pub on_disk_len: u64,
+}
+
+/// Projection of one blob file.
+pub struct BlobFileDump {
+    pub id: u64,
+    pub item_count: u64,
+    pub total_uncompressed_bytes: u64,
+    pub total_compressed_bytes: u64,
+    pub is_deleted: bool,
+    pub blobs: Vec<BlobDump>,
+    /// set if the file could not be scanned completely
+    pub error: Option<String>,
+}
+
+/// Dumps every blob file referenced by any retained super version.
+#[must_use]
+#[allow(clippy::expect_used)]
+pub fn dump_blob_files(tree: &Tree) -> Vec<BlobFileDump> {
+    use crate::vlog::BlobFileScanner;
+
+    let lock = tree.version_history.read().expect("lock is poisoned");
+    let mut seen: Vec<u64> = vec![];
+    let mut out = vec![];
+
+    for sv in lock.iter() {
+        for bf in sv.version.blob_files.iter() {
+            if seen.contains(&bf.id()) {
+                continue;
+            }
+            seen.push(bf.id());
+
+            let mut blobs = vec![];
+            let mut error = None;
+
+            match BlobFileScanner::new(bf.path(), bf.id()) {
+                Ok(scanner) => {
+                    for item in scanner {
+                        match item {
+                            Ok(e) => blobs.push(BlobDump {
+                                key: e.key.to_vec(),
+                                seqno: e.seqno,
+                                offset: e.offset,
+                                uncompressed_len: e.uncompressed_len,
+                                on_disk_len: e.value.len() as u64,
+                            }),
+                            Err(e) => {
+                                error = Some(format!("{e:?}"));
+                                break;
+                            }
+                        }
+                    }
+                }
+                Err(e) => error = Some(format!("{e:?}")),
+            }
+
+            out.push(BlobFileDump {
+                id: bf.id(),
+                item_count: bf.0.meta.item_count,
+                total_uncompressed_bytes: bf.0.meta.total_uncompressed_bytes,
+                total_compressed_bytes: bf.0.meta.total_compressed_bytes,
+                is_deleted: bf.0.is_deleted.load(std::sync::atomic::Ordering::Acquire),
+                blobs,
+                error,
+            });
+        }
+    }
+
+    out.sort_by_key(|x| x.id);
+    out
+}
+
+/// Decodes a blob pointer: `(blob file id, offset, on-disk size, uncompressed size)`.
+#[must_use]
+pub fn decode_indirection(value: &[u8]) -> Option<(u64, u64, u32, u32)> {
+    use crate::coding::Decode;
+    let mut reader = value;
+    let ind = crate::BlobIndirection::decode_from(&mut reader).ok()?;
+    Some((
+        ind.vhandle.blob_file_id,
+        ind.vhandle.offset,
+        ind.vhandle.on_disk_size,
+        ind.size,
+    ))
+}
+
+/// Resolves a blob pointer through the blob file list of super version `hist_index`
+/// (the way reads pinned to that version do). `Ok(None)` = the pointer dangles.
+#[allow(clippy::expect_used)]
+pub fn resolve_indirection(
+    tree: &Tree,
+    hist_index: usize,
+    key: &[u8],
+    value: &[u8],
+) -> crate::Result<Option<Vec<u8>>> {
+    use crate::coding::Decode;
+    let mut reader = value;
+    let ind = crate::BlobIndirection::decode_from(&mut reader)?;
+
+    let version = {
+        let lock = tree.version_history.read().expect("lock is poisoned");
+        let Some(sv) = lock.iter().nth(hist_index) else {
+            return Ok(None);
+        };
+        sv.version.clone()
+    };
+
+    let folder = tree.config.path.join(crate::file::BLOBS_FOLDER);
+    crate::vlog::Accessor::new(&version.blob_files)
+        .get(tree.id, &folder, key, &ind.vhandle, &tree.config.cache)
+        .map(|v| v.map(|x| x.to_vec()))
+}
+
+/// Blob file references recorded in a table: `(blob file id, len, bytes, on_disk_bytes)`.
+pub fn table_blob_links(table: &Table) -> crate::Result<Vec<(u64, u64, u64, u64)>> {
+    let mut v = table
+        .list_blob_file_references()?
+        .unwrap_or_default()
+        .into_iter()
+        .map(|l| (l.blob_file_id, l.len as u64, l.bytes, l.on_disk_bytes))
+        .collect::<Vec<_>>();
+    v.sort_unstable();
+    Ok(v)
+}
